@@ -174,8 +174,8 @@ def spec_failures(case, got):
 
 
 def case_json(case):
-    return {"seq": [[repr(f), repr(v)] for f, v in case["seq"]], "tol": repr(case["tol"]),
-            "size": case["size"], "pens": [repr(p) for p in case["pens"]], "mode": case["mode"]}
+    return {"seq": [[repr(float(f)), repr(float(v))] for f, v in case["seq"]], "tol": repr(float(case["tol"])),
+            "size": case["size"], "pens": [repr(float(p)) for p in case["pens"]], "mode": case["mode"]}
 
 
 def case_from_json(j):
